@@ -159,8 +159,9 @@ def profiles_for(pid, tier):
         "C18": [("configs", dict(three, w_list=8, w_allocate=8), N(100, 800))],
     }
     profs = P.get(pid, [])
-    if not q and profs:
-        L = 3 if pid in ("C06", "C10", "C11", "C14", "C18") else 4     # two-run oracles cost several runs per history
+    if profs:
+        two_run = pid in ("C06", "C10", "C11", "C14", "C18")           # two-run oracles cost several runs per history
+        L = 2 if q else (3 if two_run else 4)
         profs = profs + [("exhaustive-%d" % L, dict(_special="exhaustive", L=L, _exhaustive=True), len(EXH_SYMBOLS) ** L)]
     return profs
 
